@@ -43,6 +43,14 @@ CLAIMED['C15'] = dict(
          'triangle inequality / sub-multiplicativity on the tiny shapes listed (thorough).',
     ref='3/C15')
 
+CLAIMED['C17'] = dict(
+    text='For images up to 4x4 (non-square included) and every PSF size up to the image with all taps symbolic: apply_blur_fft equals the '
+         'index-level centred periodic convolution (impulse -> centred PSF, mass preserved); the dense and the sparse BCCB builders equal the '
+         'explicit matrix of that operator; qslst_restore_fft returns X with (A^T A + lambda I) X = A^T B for that A (PSF symbolic on 2x2, concrete '
+         'rational kernel families on 3x3/4x4, lambda symbolic in (0,10], B symbolic); the matrix path equals the FFT path; restoration is linear in B, '
+         'channel-wise, and inverts the blur at lambda = 0 on every path without a vanishing Fourier coefficient. FFT = exact DFT over Q(i, sqrt 3).',
+    ref='3/C17')
+
 NOT_YET = {}
 
 NA = {
